@@ -6,6 +6,7 @@ import (
 	"strings"
 
 	"github.com/zishang520/engine.io/v2/config"
+	"github.com/zishang520/engine.io/v2/transports"
 	"github.com/zishang520/engine.io/v2/types"
 	verif "github.com/zishang520/engine.io/v2/internal/zzverif"
 )
@@ -225,4 +226,79 @@ func msgsOnly(pk []string) []string {
 		}
 	}
 	return out
+}
+
+// VerifH_C12_close_from_send_callback: send-then-close from inside the send callback (the
+// callback runs on the transport's own writer goroutine) on a real polling session, graceful
+// or forced: the close is carried out -- the client's next poll is answered with the close
+// packet (or released), the session closes exactly once with 'forced close', nothing hangs.
+func VerifH_C12_close_from_send_callback() {
+	verif.RunTimed(func() {
+		c := newPollClient(config.DefaultServerOptions())
+		c.request("GET", "")
+		if c.sock == nil {
+			return
+		}
+		pending := verif.Bool()
+		if pending {
+			c.poll()
+		}
+		discard := verif.Bool()
+		ran := false
+		c.sock.Send(types.NewStringBufferString("hello"), nil, func(transports.Transport) {
+			ran = true
+			c.sock.Close(discard)
+		})
+		verif.Settle()
+		for i := 0; i < 3 && len(c.closes) == 0; i++ {
+			c.poll()
+		}
+		verif.Settle()
+		verif.Assert(ran, "the send callback ran once the message was handed to the client")
+		got := msgsOnly(c.received())
+		verif.Assert(len(got) == 1 && got[0] == "4hello", "the message sent before the close is delivered")
+		verif.Assert(len(c.closes) == 1 && c.closes[0] == "forced close", "the close requested from the send callback is carried out: one close event, 'forced close'")
+		for _, ex := range c.reqs {
+			verif.Assert(ex.answered() && ex.w.writeCalls == 1, "every request of the session is answered exactly once")
+		}
+		verif.Assert(c.ps.Clients().Len() == 0 && c.ps.ClientsCount() == 0, "client table empty")
+	})
+}
+
+// VerifH_C03_slow_callbacks_no_close_cause: histories without any close cause on a real
+// polling session: sends with slow send callbacks and slow flush / drain listeners (they
+// take long enough for every other goroutine of the server -- request watchers, writers --
+// to run), polls and data requests: the session stays open and emits no close event.
+func VerifH_C03_slow_callbacks_no_close_cause() {
+	verif.RunTimed(func() {
+		c := newPollClient(config.DefaultServerOptions())
+		c.request("GET", "")
+		if c.sock == nil {
+			return
+		}
+		slow := func(...any) { verif.Settle() }
+		switch verif.Choose(3) {
+		case 1:
+			c.sock.On("drain", slow)
+		case 2:
+			c.sock.On("flush", slow)
+		}
+		for step := 0; step < 3; step++ {
+			switch verif.Choose(3) {
+			case 0:
+				c.sock.Send(types.NewStringBufferString("m"), nil, func(transports.Transport) { verif.Settle() })
+			case 1:
+				c.poll()
+			case 2:
+				c.request("POST", "4in")
+			}
+			verif.Settle()
+		}
+		c.poll()
+		verif.Settle()
+		verif.Assert(len(c.closes) == 0 && c.sock.ReadyState() == "open", "without a close cause the session stays open and emits no close event")
+		for _, ex := range c.reqs {
+			verif.Assert(ex.w.writeCalls <= 1, "never two responses")
+		}
+	})
 }
